@@ -41,13 +41,15 @@ struct SyncRun : NodeEnv {
         }
         cov.hit("produced-checked", exp.size());
     }
-    int tpdoSeen = 0;
+    int tpdoSeen = 0; uint32_t mcUs = 0; bool mcReal = false, mcHooked = false;
     void op(const Op &o) {
         size_t mk = w.mark(); const std::string &k = o.k; tpdoSeen = 0; int tpdoExp = -1;
         if (k == "sendfail") { S().sendFail = (int)(o.arg(0) % 4); cov.hit("F5-can-send-failure"); return; }   // the next n frames are refused by the CAN driver: attempts count, the schedule must not shift
         if (k == "lostsync") { uint32_t id = cobid & 0x7FF; if (o.arg(0)) S().readErr = 1; else S().readEmpty = 1; w.rx(0, Frame(id, 0, {})); w.canproc(0); S().rx.clear(); S().readErr = 0; S().readEmpty = 0; cov.hit("F6-can-read-error"); tpdoExp = 0; safety(); if (v.ok) checkProduced(mk, now(), "lost SYNC"); if (v.ok && tpdoSeen) fail("sync/tpdo-unexpected", "synchronous TPDO sent although the CAN driver delivered no SYNC"); return; }
         if (k == "tick") { w.tick(0, (uint64_t)o.arg(0)); if (producing) tpdoExp = -1; else tpdoExp = 0; }
-        else if (k == "nmt") { uint8_t cs = (uint8_t)o.arg(0); deliver(Frame(0, 2, {cs, 0})); int old = m; if (cs == 1) m = M_OP; else if (cs == 2) m = M_STOP; else if (cs == 128) m = M_PREOP; else if (cs == 129 || cs == 130) { m = M_PREOP; activate(); cov.hit("reset"); } if (m == M_OP && old != M_OP) cnt = 0; tpdoExp = 0; }
+        else if (k == "mcsync") { uint32_t us = (uint32_t)o.arg(0); if (us == 0 || !resolvable(us)) return; mcUs = us; mcReal = true;   // application code in CONmtModeChange(INIT): rewrites the communication cycle period when the node goes into a reset
+            if (!mcHooked) { mcHooked = true; w.onModeChange = [this](int mode) { if (!mcReal || mode != CO_INIT) return; mcReal = false; (void)CODictWrLong(&N()->Dict, CO_DEV(0x1006, 0), mcUs); (void)CONodeGetErr(N()); }; } return; }
+        else if (k == "nmt") { uint8_t cs = (uint8_t)o.arg(0); deliver(Frame(0, 2, {cs, 0})); int old = m; if (cs == 1) m = M_OP; else if (cs == 2) m = M_STOP; else if (cs == 128) m = M_PREOP; else if (cs == 129 || cs == 130) { m = M_PREOP; if (mcUs) { cycle = mcUs; mcUs = 0; cov.hit("1006-written-from-the-mode-change-callback-of-a-reset"); nontrivial = true; if (w.raw(0, 0x1006, 0) != cycle) { fail("sync/1006-stored", "1006h holds " + std::to_string(w.raw(0, 0x1006, 0)) + " after the application wrote " + std::to_string(cycle) + " in the mode-change callback"); return; } } activate(); cov.hit("reset"); } if (m == M_OP && old != M_OP) cnt = 0; tpdoExp = 0; }
         else if (k == "sync") {
             int sel = (int)o.arg(0); uint32_t id = cobid & 0x7FF; uint32_t fid = sel == 0 ? id : sel == 1 ? id + 1 : sel == 2 ? id - 1 : prevId ? prevId : id ^ 0x100; fid &= 0x7FF; if (fid == 0 || fid == 0x601 || fid == 0x7E5) return;
             bool isSync = fid == id && (m == M_PREOP || m == M_OP);
@@ -103,6 +105,7 @@ Plan gen_sync(Rng &r, bool thorough) {
         int c = (int)r.below(20);
         if (c < 6) p.ops.push_back(Op("tick", {r.chance(1, 10) ? (int64_t)((uint64_t)r.pick<int64_t>({7, 10}) * f) : r.chance(1, 2) ? r.range(1, 5) : (int64_t)((uint64_t)minus * (uint64_t)r.pick<int64_t>({1, 2, 3, 5, 10, 20, 100}) * f / 1000000) + (int64_t)r.below(2)}));
         else if (c < 10) p.ops.push_back(Op("sync", {(int64_t)(r.chance(3, 5) ? 0 : r.range(1, 3)), (int64_t)r.below(4)}));
+        else if (c < 13 && r.chance(1, 6)) { p.ops.push_back(Op("mcsync", {cyc()})); p.ops.push_back(Op("nmt", {r.pick<int64_t>({129, 130})})); }
         else if (c < 13) p.ops.push_back(Op("w1006", {cyc()}));
         else if (c < 17) p.ops.push_back(Op("w1005", {(r.chance(1, 2) ? 0x40000000ll : 0) | (r.chance(1, 4) ? 0x80000000ll : 0) | r.pick<int64_t>({0x80, 0x80, 0x90, 0x100, 0x81})}));   // bit 31 of 1005h is a don't-care bit of CiA 301: stored as written, without any effect
         else if (r.chance(1, 4)) p.ops.push_back(r.chance(1, 2) ? Op("sendfail", {r.range(1, 3)}) : Op("lostsync", {(int64_t)r.below(2)}));
